@@ -22,7 +22,7 @@ PROPS = ["Bee2V/C05/Props.lean", "Bee2V/C05/PropsAdd.lean", "Bee2V/C05/PropsMul.
          "Bee2V/C05/PropsPpMul.lean", "Bee2V/C05/PropsPpRed.lean", "Bee2V/C05/PropsMisc.lean", "Bee2V/C05/PropsGf2.lean",
          "Bee2V/C05/PropsPpDiv.lean", "Bee2V/C05/PropsZm.lean", "Bee2V/C05/PropsGf2Ops.lean",
          "Bee2V/C05/PropsPpModOps.lean", "Bee2V/C05/PropsFld.lean", "Bee2V/C05/PropsGcdW.lean",
-         "Bee2V/C05/PropsMinPoly.lean"]
+         "Bee2V/C05/PropsMinPoly.lean", "Bee2V/C05/PropsEtcW.lean", "Bee2V/C05/PropsPpW.lean"]
 # theorems that discharge a hypothesis of ANOTHER area (C06) and therefore import that area's modules: checked
 # separately, so that a build error located in the other area's files is reported as a note, not as a C05 failure
 PROPS_CROSS = ["Bee2V/C05/PropsSimC06.lean"]
@@ -943,7 +943,7 @@ def corpus(W):
 def generate(ctx, W):
     r = random.Random(ctx.rng.getrandbits(64))
     g = G(r, W, ctx.tier)
-    q = 4 if ctx.tier == "quick" else 12
+    q = 3 if ctx.tier == "quick" else 10
     g.words(60 * q)
     g.ww(60 * q)
     g.ww_sweep()
